@@ -378,24 +378,29 @@ func c16Judge(w *c16World, q c16Req, status int, body []byte) (out [][2]string, 
 		ks = []kv{{"NwkSKey", a.NwkSKey, acc.NwkSKey, q.sender, nsKEK}, {"AppSKey", a.AppSKey, acc.App, q.dev.ASLabel, asKEK}}
 	}
 	mismatch := []string{}
-	style10 := true
+	all := []string{}
+	style10 := true // every key of the answer (also one that happens to coincide with the right value) is the 1.0 derivation
 	for _, k := range ks {
 		got, ok := unwrap(k.name, k.env, k.label, k.kek)
 		if !ok {
 			continue
 		}
+		all = append(all, k.name)
+		typ := map[string]byte{"FNwkSIntKey": 1, "NwkSKey": 1, "AppSKey": 2, "SNwkSIntKey": 3, "NwkSEncKey": 4}[k.name]
+		if got != spec.SessionKey10(q.dev.NwkKey, typ, ja.JoinNonce, ja.NetID, q.nonce) {
+			style10 = false
+		}
 		if got != k.want {
 			mismatch = append(mismatch, k.name)
-			typ := map[string]byte{"FNwkSIntKey": 1, "NwkSKey": 1, "AppSKey": 2, "SNwkSIntKey": 3, "NwkSEncKey": 4}[k.name]
-			if got != spec.SessionKey10(q.dev.NwkKey, typ, ja.JoinNonce, ja.NetID, q.nonce) {
-				style10 = false
-			}
 		}
 	}
 	if len(mismatch) > 0 {
 		how := "other"
 		if style10 && acc.OptNeg {
+			// one defect, one key: with an all-zero NetID and JoinEUI some of the 1.0-derived keys coincide
+			// with the 1.1 ones, which must not make it look like a different violation
 			how = "1.0-style-derivation"
+			mismatch = all
 		}
 		bad(fmt.Sprintf("C16|session-keys|%s|optneg=%v|%s|%s", q.kind, acc.OptNeg, strings.Join(mismatch, "+"), how), "session keys %v in the answer differ from the keys the device derives (library values are the LoRaWAN 1.0 derivation over NetID: %v)", mismatch, style10)
 	}
